@@ -8,7 +8,9 @@ Inductive cinput :=
 | CApp (fs : list cfr)
 | CTick (t : N)
 | CClose
-| CStart.
+| CStart
+| CWrote (t : N)                      (* record_activity() at virtual time t (ms) *)
+| CDeadline.                          (* query get_pong_deadline(): row [91; has; ms] *)
 
 Definition ms (t : N) : N := t * 1000000.
 
@@ -55,7 +57,8 @@ Definition to_input (c : cinput) : option einput :=
   | CApp fs => Some (IApp (map cfr_frame fs))
   | CTick t => Some (ITick (ms t))
   | CClose => Some IClose
-  | CStart => None
+  | CWrote t => Some (IWrote (ms t))
+  | CStart | CDeadline => None
   end.
 
 Fixpoint eng_rows (cfg : ecfg) (opaque : bool) (g : engine) (dead : bool) (is : list cinput) : obs * engine * bool :=
@@ -67,10 +70,18 @@ Fixpoint eng_rows (cfg : ecfg) (opaque : bool) (g : engine) (dead : bool) (is : 
       else
         let '(g1, o) := match to_input c with
                         | Some i => e_input cfg g i
-                        | None => (g, e_start)
+                        | None => (g, match c with CStart => e_start | _ => [] end)
                         end in
         let pn := has_panic o in
-        let rows := if pn then [[90; 1]; [9]] else call_rows opaque o in
+        let rows := if pn then [[90; 1]; [9]]
+                    else match c with
+                         | CDeadline =>
+                             [[90; 1]; match e_pong_deadline cfg g with
+                                       | Some d => [91; 1; d / 1000000]
+                                       | None => [91; 0; 0]
+                                       end]
+                         | _ => call_rows opaque o
+                         end in
         let '(r, g', d') := eng_rows cfg opaque g1 pn rest in (rows ++ r, g', d')
   end.
 
